@@ -397,6 +397,56 @@ fn step(rest: &str) -> String {
             _ => "bad-op".into(),
         },
         ("crefs", 1) => op_crefs(&unhex(args[0])),
+        ("pidtry", 1) => match args[0].parse::<u64>() {
+            Ok(v) if v <= u16::MAX as u64 => {
+                use std::convert::TryFrom;
+                match mpeg2ts_reader::packet::Pid::try_from(v as u16) {
+                    Ok(p) => format!("ok:{}", u16::from(p)),
+                    Err(()) => "err".into(),
+                }
+            }
+            Ok(_) => "err".into(), // not representable as the argument type
+            Err(_) => "bad-op".into(),
+        },
+        ("pidnew", 1) => match args[0].parse::<u64>() {
+            Ok(v) if v <= u16::MAX as u64 => {
+                match catch_unwind(|| u16::from(mpeg2ts_reader::packet::Pid::new(v as u16))) {
+                    Ok(p) => format!("ok:{}", p),
+                    Err(_) => "refused".into(),
+                }
+            }
+            Ok(_) => "refused".into(),
+            Err(_) => "bad-op".into(),
+        },
+        ("ccnew", 1) => match args[0].parse::<u64>() {
+            Ok(v) if v <= u8::MAX as u64 => {
+                match catch_unwind(|| mpeg2ts_reader::packet::ContinuityCounter::new(v as u8).count()) {
+                    Ok(p) => format!("ok:{}", p),
+                    Err(_) => "refused".into(),
+                }
+            }
+            Ok(_) => "refused".into(),
+            Err(_) => "bad-op".into(),
+        },
+        ("tsh", 1) => {
+            let b = unhex(args[0]);
+            let t = psi::TableSyntaxHeader::new(&b);
+            let s = format!("{:?}", t);
+            std::hint::black_box(s.len());
+            format!(
+                "id={} ver={} cur={} sn={} lsn={}",
+                t.id(),
+                t.version(),
+                fb(t.current_next_indicator() == psi::CurrentNext::Current),
+                t.section_number(),
+                t.last_section_number()
+            )
+        }
+        ("sch", 1) => {
+            let b = unhex(args[0]);
+            let h = psi::SectionCommonHeader::new(&b);
+            format!("tid={} syn={} priv={} len={}", h.table_id, fb(h.section_syntax_indicator), fb(h.private_indicator), h.section_length)
+        }
         ("crc", 1) => op_crc(&unhex(args[0])),
         ("pat", 1) => op_pat(&unhex(args[0])),
         ("pmt", 1) => op_pmt(&unhex(args[0])),
